@@ -238,6 +238,9 @@ PROPS = {
                     "category, and From<serde_lexpr::Error> for io::Error is total (its unreachable!() arm is proved dead; before fix 9b371ba it was reachable "
                     "for exactly the read-failure case, D16).",
         assumptions=[
+            "unit serde sees lexpr::parse::Error and io::Error as opaque types (PErr with an uninterpreted category sp_classify that PErr::classify returns - decided in unit parse -, IoErr); "
+            "lexpr's conversion of a parse error into io::Error and io::Error::new are opaque calls there (vx_perr_into_io, vx_io_error_new)",
+
             "std::io::Bytes<R> (splitting into read calls, retry on Interrupted) is std code: modelled by trait ByteIter (prophetic `ahead`, `gone`, `broken`), "
             "ASSUMED: an Err item delivers no byte and loses none, None is only reported when nothing is ahead, fewer than usize::MAX bytes are delivered",
             "scalar_utf8(n) is DEFINED as vstd's encode_utf8 of the char with code n (char::encode_utf8 / char::from_u32 carry assumed std specifications)",
